@@ -27,7 +27,7 @@ CLAIMED = {
           "(evidence: round_trip_theorem_side_conditions). Also proved and re-checked against generated facts on every run: the operator table dumped from the impl "
           "equals README.md's table (+ `in`), setters are exactly the right-associative level-20 operators (C02_table, C02_fixity_sets, C02_table_wf); the two-"
           "operator, prefix, postfix and `not` clauses for arbitrary tables (C02_two_operators, C02_prefix_tighter_than_infix, C02_postfix_tighter_than_prefix, "
-          "C02_not_infix); the built-in table meets all hypotheses (C02_builtins_wf). Every run additionally decides grouping by an executable spec of the "
+          "C02_not_infix); parentheses override the default grouping, for every tree with explicit parenthesis nodes (C02_parens_override); the built-in table meets all hypotheses (C02_builtins_wf). Every run additionally decides grouping by an executable spec of the "
           "documented rules against impl and model: all ordered operator pairs x {plain, not} x 3 shapes exhaustively + random trees. " + TIE,
           "Coq kernel + vm_compute for the generated-fact equalities; Parser.v/Printer.v/Etoks.v hand-written and tied by correspondence; the documented grouping "
           "rules as Python oracle (vlib/props/progs.py).",
@@ -98,9 +98,11 @@ CLAIMED = {
           "stability lemmas for each scanner (operator longest-match loop, number, string, word/name with call look-ahead) and induction over the token stream. Also "
           "proved: gaps are whitespace only (C11_gaps_are_whitespace), the four blanks are skipped alike, string payloads are verbatim (C11_strings_verbatim), the "
           "call look-ahead skips blanks (C11_call_lookahead_skips_blanks), a parenthesised operand yields exactly the inner expression's tree and must be closed "
-          "(C11_parens_transparent, C11_parens_must_close); minimal parenthesisation parses back for every tree (C02_round_trip). Arbitrary redundant parentheses inside a "
-          "larger program, and the model-to-code tie, are decided on each run: every gap of 600 accepted programs rewritten, every subexpression wrapped in 1/2/5 pairs "
-          "of parentheses, ASTs compared. " + TIE, "Coq kernel; token spans from the hook; redundant nested parentheses in context rest on the correspondence.",
+          "(C11_parens_transparent, C11_parens_must_close). REDUNDANT PARENTHESES NEVER CHANGE THE PARSE (C11_redundant_parens, C11_extra_parens_same_parse; "
+          "Lemmas/PrattParen.v): for every table and every syntax tree with explicit parenthesis nodes that has the parentheses the grammar needs and ANY others around ANY "
+          "subexpressions, nested to any depth, the parser returns the tree with the parentheses forgotten (same induction as lemma (B), on ptrees). The model-to-code tie "
+          "is decided on each run: every gap of 600 accepted programs rewritten, every subexpression wrapped in 1/2/5 pairs of parentheses, ASTs compared. " + TIE,
+          "Coq kernel; token spans from the hook.",
           "Coq proof (tokenizer invariant under re-spacing, all inputs) + parser lemmas + metamorphic correspondence (layout and parenthesis variants)", "6/C11"),
  "C12": C("Proof (Coq). The round trip is a theorem: for every operator table and every well-formed tree or `;`-program within the depth limit, parsing the "
           "printer's token image gives back the tree (C12_round_trip_tokens); whenever the tokenizer model reads the printer model's TEXT as that token image "
